@@ -37,6 +37,9 @@ type Analysis struct {
 	SwapStores          map[ssa.Instruction]bool      // F3b: stores accepted as explicit swaps of the source
 	evals               map[string]*Eval
 	Contexts            int
+	lazy                map[*ssa.Function]*lazyHelper
+	lazyInst            map[*ssa.Global][]lazyInst
+	LazyGuard           map[*ssa.Global]*ssa.Global // guard -> the map it guards through a lazy helper
 	genVarField         string // W2: the template data field holding the variable name
 	genWordsField       string // W2: … and the one holding the words
 }
